@@ -560,6 +560,25 @@ impl Math {
             grid.push(V::Int(i));
             grid.push(V::UInt(i as u64));
         }
+        // every power of ten and of two with its neighbours (integer log and lg must not go through a double)
+        for k in 1..=19u32 {
+            let p = 10u64.pow(k);
+            for u in [p - 1, p, p + 1] {
+                grid.push(V::UInt(u));
+                if let Ok(i) = i64::try_from(u) {
+                    grid.push(V::Int(i));
+                }
+            }
+        }
+        for k in 1..=63u32 {
+            let p = 1u64 << k;
+            for u in [p - 1, p, p + 1] {
+                grid.push(V::UInt(u));
+                if let Ok(i) = i64::try_from(u) {
+                    grid.push(V::Int(i));
+                }
+            }
+        }
         grid.extend(other_grid());
         let mut small = numeric_grid(Tier::Quick);
         for e in [2i64, 3, 10, 31, 32, 62, 63, 64, 65, -2] {
@@ -760,10 +779,10 @@ impl Shapes {
                         t
                     };
                     let kind = if stripped.len() < tys.len() && !stripped.is_empty() && self.is_documented(name, method, &stripped) {
-                        "trailing-null-argument-accepted".to_string()
+                        format!("trailing-null-argument-accepted {}", name)
                     } else if method && tys[0] == Ty::Null && tys.len() > 1 && self.is_documented(name, false, &tys[1..]) {
                         // a free call passes null as the receiver, so null.f(x) is indistinguishable from f(x)
-                        "null-receiver-treated-as-free-call".to_string()
+                        format!("null-receiver-treated-as-free-call {}", name)
                     } else {
                         format!("undocumented-shape-accepted {}", name)
                     };
